@@ -180,6 +180,8 @@ def norm(t):
         for f in parts[1:]:
             cur = ("fieldof", cur, f)
         return cur
+    if t[0] == "fieldof" and len(t) == 3 and isinstance(t[2], str) and t[2].isdigit() and isinstance(t[1], tuple) and t[1][:1] == ("list",) and int(t[2]) < len(t[1][1]):
+        return norm(t[1][1][int(t[2])])      # `pair.0` of a literal pair
     if t[0] == "call" and t[1] in TRANSPARENT and len(t[2]) == 1:
         return norm(t[2][0])
     if t[0] in ("ref", "deref", "borrow") and len(t) == 2:
